@@ -5,7 +5,7 @@ REPO=${1:-/repo}
 cd "$REPO" || exit 2
 unset RUSTFLAGS
 export CARGO_NET_OFFLINE=true
-cargo nextest run --workspace --no-fail-fast --tool-config-file pb:/w/lib/nextest.toml --profile pb --test-threads 8 --offline > /tmp/baseline_off.log 2>&1
+cargo nextest run --workspace --no-fail-fast --tool-config-file pb:/w/lib/nextest.toml --profile pb --test-threads 8 --offline > /tmp/baseline_off.$$.log 2>&1
 J=$(ls -t "$REPO"/target/nextest/pb/junit.xml 2>/dev/null | head -1)
 python3 - "$J" <<'PY'
 import json,sys,xml.etree.ElementTree as ET
